@@ -237,6 +237,17 @@ Proof.
   - injection H as <- <- <-. repeat split; [assumption|lra|assumption|]. exists 0%nat. cbn [pow]. ring.
 Qed.
 
+(** if the LHS stays negative along the whole geometric sequence the loop gives up *)
+Lemma loop_all_negative fuel : forall a b i,
+  (forall j : nat, F (b * M ^ j) < 0) -> forall r, loop fuel a b i <> Some (inr r).
+Proof.
+  induction fuel as [|fuel IH]; intros a b i Hall r; [discriminate|].
+  rewrite loop_S. pose proof (Hall 0%nat) as H0. cbn [pow] in H0. rewrite Rmult_1_r in H0.
+  destruct (Rlt_dec (F b) 0); [|contradiction].
+  destruct (Rlt_dec 100 i); [discriminate|].
+  apply IH. intro j. replace (b * M * M ^ j) with (b * M ^ (S j)) by (cbn [pow]; ring). apply Hall.
+Qed.
+
 (** exact evaluation: the bracket is found at the FIRST k for which the LHS at tmin M^(k+1) is
     not negative (k <= 100 enlargements are allowed) *)
 Lemma loop_eval : forall (k fuel : nat) a b i,
@@ -274,6 +285,15 @@ Let F := fun T : R => temperatureProfileEqLHS e fields dPhidz T s1 s2.
 Let tmin := minimize_bounded e F 0 (2 * Rmax Tplus Tminus).
 (** the branch rule of the source *)
 Let detonation := Rabs (Tnucl e - Tplus) < 1 / 10 ^ 10.
+(** bring the unfolded generated body to the named quantities, up to ring-equal rewritings of
+    s1, s2 and of the minimiser's bounds (so that harmless reorderings of the source still prove) *)
+Ltac norm_point :=
+  match goal with |- context [minimize_bounded e (fun T : R => temperatureProfileEqLHS e fields dPhidz T ?a ?b) ?lo ?hi] =>
+    replace a with s1 by (unfold s1; ring);
+    replace b with s2 by (unfold s2; ring);
+    replace lo with 0 by ring;
+    replace hi with (2 * Rmax Tplus Tminus) by first [ring | rewrite (Rmax_comm Tplus Tminus); ring]
+  end.
 Definition multiplier (det : bool) := if det then Rmin (Tminus / tmin) (4 / 5) else Rmax (Tplus / tmin) (6 / 5).
 
 Inductive outcome (T v : R) : Prop :=
@@ -292,8 +312,7 @@ Lemma point_cases :
               /\ outcome T v.
 Proof.
   unfold findPlasmaProfilePoint. rewrite let_pair. cbv zeta.
-  change (c1 - fst (deltaToTmunu e index fields velocityMid D)) with s1.
-  change (c2 - snd (deltaToTmunu e index fields velocityMid D)) with s2.
+  norm_point.
   change (fun T : R => temperatureProfileEqLHS e fields dPhidz T s1 s2) with F.
   change (minimize_bounded e F 0 (2 * Rmax Tplus Tminus)) with tmin.
   change (temperatureProfileEqLHS e fields dPhidz tmin s1 s2) with (F tmin).
@@ -334,8 +353,7 @@ Lemma point_eval_early :
   = Some (tmin, plasmaVelocity e fields tmin s1).
 Proof.
   intro Hpos. unfold findPlasmaProfilePoint. rewrite let_pair. cbv zeta.
-  change (c1 - fst (deltaToTmunu e index fields velocityMid D)) with s1.
-  change (c2 - snd (deltaToTmunu e index fields velocityMid D)) with s2.
+  norm_point.
   change (fun T : R => temperatureProfileEqLHS e fields dPhidz T s1 s2) with F.
   change (minimize_bounded e F 0 (2 * Rmax Tplus Tminus)) with tmin.
   change (temperatureProfileEqLHS e fields dPhidz tmin s1 s2) with (F tmin).
@@ -351,8 +369,7 @@ Lemma point_eval_root (det : bool) (k : nat) :
           plasmaVelocity e fields (root_bracketed e F (tmin * M ^ k) (tmin * M * M ^ k) XTOL (RTOL e)) s1).
 Proof.
   intros Hneg Hdet Hk M Hj Hpos. unfold findPlasmaProfilePoint. rewrite let_pair. cbv zeta.
-  change (c1 - fst (deltaToTmunu e index fields velocityMid D)) with s1.
-  change (c2 - snd (deltaToTmunu e index fields velocityMid D)) with s2.
+  norm_point.
   change (fun T : R => temperatureProfileEqLHS e fields dPhidz T s1 s2) with F.
   change (minimize_bounded e F 0 (2 * Rmax Tplus Tminus)) with tmin.
   change (temperatureProfileEqLHS e fields dPhidz tmin s1 s2) with (F tmin).
@@ -430,33 +447,60 @@ Proof.
     split; [intros _; lra | intro N; contradiction].
 Qed.
 
-(** what scipy documents for a bracketing solver: the returned value is within
-    xtol + rtol |r| of an exact zero r lying in the bracket -- for WHATEVER tolerances it is given *)
+(** the give-up outcome, evaluated: on the detonation rule (0 < M <= 1) the geometric sequence stays
+    in (0, tmin M]; if the LHS is negative on (0, B] with tmin M <= B, the result is (0,0) *)
+Lemma point_eval_gaveup (B : R) :
+  F tmin < 0 -> detonation -> 0 < tmin -> 0 < multiplier true <= 1 -> tmin * multiplier true <= B ->
+  (forall T, 0 < T <= B -> F T < 0) ->
+  findPlasmaProfilePoint e index c1 c2 velocityMid fields dPhidz D Tplus Tminus = Some (0, 0).
+Proof.
+  intros Hneg Hdet Htm HM HB Hall.
+  destruct point_cases as [T [v [H O]]]. rewrite H.
+  destruct O as [Hpos _ _ | _ -> -> | det a b k _ Hd Ha Hb Fa Fb _ _]; [lra | reflexivity | exfalso].
+  destruct det; [|contradiction].
+  set (M := multiplier true) in *.
+  assert (Hk : forall n : nat, 0 < M ^ n <= 1).
+  { induction n; cbn [pow]; [lra|]. nra. }
+  assert (Hbr : 0 < b <= B).
+  { pose proof (Hk k) as [K1 K2]. unfold M in HM. fold M in HM. destruct HM as [M1 M2].
+    assert (A1 : 0 < a) by (rewrite Ha; apply Rmult_lt_0_compat; assumption).
+    assert (A2 : a <= tmin) by (rewrite Ha; nra).
+    rewrite Hb. split; [apply Rmult_lt_0_compat; assumption|].
+    apply Rle_trans with (tmin * M); [|exact HB]. apply Rmult_le_compat_r; lra. }
+  pose proof (Hall b Hbr). lra.
+Qed.
+
+(** what scipy documents for a bracketing solver: the returned value lies in the bracket and is
+    within xtol + rtol |r| of an exact zero r of the bracket -- for WHATEVER tolerances it is given *)
 Definition root_contract_tol :=
   forall a b xt rt, F a < 0 -> 0 <= F b ->
+    Rmin a b <= root_bracketed e F a b xt rt <= Rmax a b /\
     exists r, Rmin a b <= r <= Rmax a b /\ F r = 0 /\
               Rabs (root_bracketed e F a b xt rt - r) <= xt + rt * Rabs r.
 
 (** Accuracy of the returned temperature with the tolerances of the generated call: the error is
     RELATIVE (errTol/10 of the root) up to the fixed floor 1e-10, hence independent of the unit
-    system for temperatures well above 1e-9; with a Lipschitz bound of the LHS the T^{33} residual
-    is bounded accordingly. *)
-Lemma point_accuracy T v (L : R) :
+    system for temperatures well above 1e-9; for any Lipschitz bound L of the LHS ON THE SOLVER'S
+    BRACKET [lo,hi] the T^{33} residual is bounded by L times that. *)
+Lemma point_accuracy T v :
   findPlasmaProfilePoint e index c1 c2 velocityMid fields dPhidz D Tplus Tminus = Some (T, v) ->
   (T, v) <> (0, 0) -> F tmin < 0 -> root_contract_tol ->
-  (forall x y, Rabs (F x - F y) <= L * Rabs (x - y)) -> 0 <= L ->
-  exists r, F r = 0 /\ Rabs (T - r) <= 1 / 10 ^ 10 + errTol e / 10 * Rabs r /\
-            Rabs (F T) <= L * (1 / 10 ^ 10 + errTol e / 10 * Rabs r).
+  exists r lo hi, lo <= r <= hi /\ lo <= T <= hi /\ F r = 0 /\
+    Rabs (T - r) <= 1 / 10 ^ 10 + errTol e / 10 * Rabs r /\
+    forall L, 0 <= L ->
+      (forall x y, lo <= x <= hi -> lo <= y <= hi -> Rabs (F x - F y) <= L * Rabs (x - y)) ->
+      Rabs (F T) <= L * (1 / 10 ^ 10 + errTol e / 10 * Rabs r).
 Proof.
-  intros H Hnz Hneg RC Lip HL.
+  intros H Hnz Hneg RC.
   destruct point_cases as [T' [v' [H' O]]]. rewrite H in H'. injection H' as <- <-.
   destruct O as [Hpos _ _ | _ -> -> | det a b k _ _ _ _ Fa Fb -> _]; [lra | exfalso; apply Hnz; reflexivity |].
-  destruct (RC a b XTOL (RTOL e) Fa Fb) as [r [_ [Fr Hr]]].
-  exists r. split; [exact Fr|].
+  destruct (RC a b XTOL (RTOL e) Fa Fb) as [Hin [r [Hr [Fr Hd]]]].
+  exists r, (Rmin a b), (Rmax a b). split; [exact Hr|]. split; [exact Hin|]. split; [exact Fr|].
   assert (E : Rabs (root_bracketed e F a b XTOL (RTOL e) - r) <= 1 / 10 ^ 10 + errTol e / 10 * Rabs r).
-  { unfold XTOL, RTOL in Hr. replace (1 / 10 ^ 10) with (1 / 10000000000) by lra. exact Hr. }
+  { unfold XTOL, RTOL in Hd. replace (1 / 10 ^ 10) with (1 / 10000000000) by lra. exact Hd. }
   split; [exact E|].
-  specialize (Lip (root_bracketed e F a b XTOL (RTOL e)) r). rewrite Fr, Rminus_0_r in Lip.
+  intros L HL Lip.
+  specialize (Lip (root_bracketed e F a b XTOL (RTOL e)) r Hin Hr). rewrite Fr, Rminus_0_r in Lip.
   eapply Rle_trans; [exact Lip|]. apply Rmult_le_compat_l; assumption.
 Qed.
 End Point.
@@ -676,6 +720,20 @@ Theorem bracket_is_first_sign_change : forall e index c1 c2 velocityMid fields d
 Proof. intros e index c1 c2 velocityMid fields dPhidz D Tplus Tminus det k. exact (point_eval_root e index c1 c2 velocityMid fields dPhidz D Tplus Tminus det k). Qed.
 Print Assumptions bracket_is_first_sign_change.
 
+(** the give-up path: on the detonation rule, an LHS that is negative on (0, B] (B above the first
+    trial point tmin M) makes the solver return (0,0) after its 101 enlargements *)
+Theorem no_bracket_returns_zero : forall e index c1 c2 velocityMid fields dPhidz D Tplus Tminus B,
+  let Tout30 := fst (deltaToTmunu e index fields velocityMid D) in
+  let Tout33 := snd (deltaToTmunu e index fields velocityMid D) in
+  let F := fun T : R => temperatureProfileEqLHS e fields dPhidz T (c1 - Tout30) (c2 - Tout33) in
+  let tmin := minimize_bounded e F 0 (2 * Rmax Tplus Tminus) in
+  let M := Rmin (Tminus / tmin) (4 / 5) in
+  F tmin < 0 -> Rabs (Tnucl e - Tplus) < 1 / 10 ^ 10 -> 0 < tmin -> 0 < M <= 1 -> tmin * M <= B ->
+  (forall T, 0 < T <= B -> F T < 0) ->
+  findPlasmaProfilePoint e index c1 c2 velocityMid fields dPhidz D Tplus Tminus = Some (0, 0).
+Proof. intros e index c1 c2 velocityMid fields dPhidz D Tplus Tminus B. exact (point_eval_gaveup e index c1 c2 velocityMid fields dPhidz D Tplus Tminus B). Qed.
+Print Assumptions no_bracket_returns_zero.
+
 Theorem no_root_returns_minimum : forall e index c1 c2 velocityMid fields dPhidz D Tplus Tminus,
   let Tout30 := fst (deltaToTmunu e index fields velocityMid D) in
   let Tout33 := snd (deltaToTmunu e index fields velocityMid D) in
@@ -689,7 +747,7 @@ Print Assumptions no_root_returns_minimum.
 
 (** the tolerances of the bracketed solve, as facts extracted from the generated call, and the
     resulting accuracy: relative (errTol/10) with an absolute floor of 1e-10 only *)
-Theorem root_accuracy_is_relative : forall e index c1 c2 velocityMid fields dPhidz D Tplus Tminus T v L,
+Theorem root_accuracy_is_relative : forall e index c1 c2 velocityMid fields dPhidz D Tplus Tminus T v,
   let Tout30 := fst (deltaToTmunu e index fields velocityMid D) in
   let Tout33 := snd (deltaToTmunu e index fields velocityMid D) in
   let F := fun T : R => temperatureProfileEqLHS e fields dPhidz T (c1 - Tout30) (c2 - Tout33) in
@@ -697,11 +755,14 @@ Theorem root_accuracy_is_relative : forall e index c1 c2 velocityMid fields dPhi
   findPlasmaProfilePoint e index c1 c2 velocityMid fields dPhidz D Tplus Tminus = Some (T, v) ->
   (T, v) <> (0, 0) -> F tmin < 0 ->
   (forall a b xt rt, F a < 0 -> 0 <= F b ->
+     Rmin a b <= root_bracketed e F a b xt rt <= Rmax a b /\
      exists r, Rmin a b <= r <= Rmax a b /\ F r = 0 /\ Rabs (root_bracketed e F a b xt rt - r) <= xt + rt * Rabs r) ->
-  (forall x y, Rabs (F x - F y) <= L * Rabs (x - y)) -> 0 <= L ->
-  exists r, F r = 0 /\ Rabs (T - r) <= 1 / 10 ^ 10 + errTol e / 10 * Rabs r /\
-            Rabs (F T) <= L * (1 / 10 ^ 10 + errTol e / 10 * Rabs r).
-Proof. intros e index c1 c2 velocityMid fields dPhidz D Tplus Tminus T v L. exact (point_accuracy e index c1 c2 velocityMid fields dPhidz D Tplus Tminus T v L). Qed.
+  exists r lo hi, lo <= r <= hi /\ lo <= T <= hi /\ F r = 0 /\
+    Rabs (T - r) <= 1 / 10 ^ 10 + errTol e / 10 * Rabs r /\
+    forall L, 0 <= L ->
+      (forall x y, lo <= x <= hi -> lo <= y <= hi -> Rabs (F x - F y) <= L * Rabs (x - y)) ->
+      Rabs (F T) <= L * (1 / 10 ^ 10 + errTol e / 10 * Rabs r).
+Proof. intros e index c1 c2 velocityMid fields dPhidz D Tplus Tminus T v. exact (point_accuracy e index c1 c2 velocityMid fields dPhidz D Tplus Tminus T v). Qed.
 Print Assumptions root_accuracy_is_relative.
 
 (** the loop over the grid (generated findPlasmaProfile): it always returns; the success flag is
